@@ -116,7 +116,7 @@ func runC19(p *Program, r *Report) {
 	for _, m := range []struct {
 		r string
 		n int
-	}{{"C19.R1", 2}, {"C19.R2", 2}, {"C19.R3", 18}, {"C19.R4", 11}, {"C19.R5", 30}, {"C19.R6", 3}, {"C19.R7", 3}, {"C19.R8", 25}, {"C19.R9", 20}, {"C19.R10", 1}, {"C19.R11", 1}} {
+	}{{"C19.R1", 2}, {"C19.R2", 2}, {"C19.R3", 18}, {"C19.R4", 11}, {"C19.R5", 30}, {"C19.R6", 3}, {"C19.R7", 3}, {"C19.R8", 25}, {"C19.R9", 20}, {"C19.R10", 1}, {"C19.R11", 1}, {"C19.R12", 1}, {"C19.R13", 1}} {
 		r.Min(m.r, m.n)
 	}
 	checkSafeTypeConvertibility(p, r)
@@ -163,6 +163,8 @@ func runC19(p *Program, r *Report) {
 		r.Check(okGate, "C19.R1", c, p.Pos(gate.Pos()), fmt.Sprintf("%s.%s is a defined, unexported string type without methods", short, gate.Name()), fmt.Sprintf("%s.%s is not a defined unexported method-less string type (alias=%v exported=%v)", short, gate.Name(), gate.IsAlias(), gate.Exported()))
 	}
 	checkGateManufacture(p, r, "C19.R11", gates)
+	checkNoExportedTreeAccess(p, r, "C19.R12")
+	checkExportedTreeOnlyTested(p, r, "C19.R13")
 	// ---- R2 surface scan ------------------------------------------------------------------------
 	for rel, short := range map[string]string{"": "safehtml", "template": "template", "uncheckedconversions": "uncheckedconversions", "legacyconversions": "legacyconversions", "testconversions": "testconversions", "template/uncheckedconversions": "template/uncheckedconversions", "internal/safehtmlutil": "safehtmlutil"} {
 		pk := p.Pkg(rel)
